@@ -50,6 +50,7 @@ class Scope(BaseScope):
         self.top = top
         self.locals = set()   # type: set[str]
         self.globals = set()  # type: set[str]
+        self.nonlocals = set()  # type: set[str]
 
     @property
     def filename(self):
@@ -74,6 +75,8 @@ class Flow(object):
         name.scope = self.scope
         if name.name in self.scope.globals:
             self.scope.top.add_global(name)
+        elif name.name in self.scope.nonlocals:
+            pass  # rebinds a name of the enclosing function, which binds it itself
         else:
             self.scope.locals.add(name.name)
             insert_loc(self._names, name)
